@@ -24,7 +24,7 @@ def rand_body(rng, n):
 
 
 def rand_str(rng, n):
-    alpha = "abcXYZ019-_ \"\\/{}:,é中\n"
+    alpha = "abcXYZ019-_ \"\\/{}:,é中\n" + "\x1b\x07\x7f\x00\x0b\t\r<>&\u2028\U0001F600\U000E0001"
     return "".join(rng.choice(alpha) for _ in range(n))
 
 
@@ -102,6 +102,15 @@ def writer_race_cases(rng, n):
         b = rng.choice([{"ty": 3, "compress": False, "body": "", "rate": 0}, {"ty": 0x21, "compress": False, "body": "0011", "rate": 0},
                         {"ty": 0x20, "compress": True, "body": "aa" * 40, "rate": 0}])
         out.append({"mode": "cw", "pkts": [a, b], "cuts": [], "park": -1, "big": True})
+    return out
+
+
+def eof_with_data_cases(rng, n):
+    """complete and truncated streams over a transport that returns its LAST bytes together with io.EOF"""
+    out = []
+    for _ in range(n):
+        seq = [rand_pkt(rng, 400) for _ in range(rng.choice([1, 2, 3]))]
+        out.append({"mode": "pk", "pkts": seq, "cuts": rng.choice([[], [1] * 900, [7] * 200, [64] * 40, [4096]]), "eofdata": True})
     return out
 
 
@@ -242,7 +251,10 @@ def raw_mutations(ctx, wires, per):
                 b = b[:i] + bytes([rng.randrange(256)]) + b[i:]
             n = max(len(b), 1)
             cuts = rng.choice([[], [1] * n, [2] * n, [rng.randrange(1, 6) for _ in range(n)]])
-            out.append({"mode": "raw", "wire": bytes(b).hex(), "cuts": cuts})
+            c = {"mode": "raw", "wire": bytes(b).hex(), "cuts": cuts}
+            if rng.random() < 0.35:
+                c["eofdata"] = True   # the transport hands its last bytes over together with io.EOF
+            out.append(c)
     return out
 
 
@@ -363,6 +375,7 @@ def run(ctx, only_cases=None):
         cases += duplex_cases(ctx.rng, 300 if thorough else 40)
         cases += resend_cases(ctx.rng, 200 if thorough else 30)
         cases += rawcmd_cases(ctx.rng, 150 if thorough else 25)
+        cases += eof_with_data_cases(ctx.rng, 150 if thorough else 25)
     outs = vlib.run_harness(binary, cases, timeout=900)
     wires = [o["wire"] for c, o in zip(cases, outs) if c["mode"] in ("pk", "ws") and o.get("wire")][:: (2 if thorough else 6)]
     raw = raw_mutations(ctx, wires, 12 if thorough else 6) if only_cases is None else []
